@@ -273,7 +273,7 @@ pub fn run(ctx: &mut Ctx) {
         },
         &|c: &ACase, info: &mut Info| Verdict::from_result(check_aligned(c, info)),
     );
-    let n = ctx.q(20000, 200000);
+    let n = ctx.q(200000, 2000000);
     ctx.explore::<ACase>(
         "aligned_random",
         n,
@@ -292,7 +292,7 @@ pub fn run(ctx: &mut Ctx) {
         },
         &|c: &ACase, info: &mut Info| Verdict::from_result(check_aligned(c, info)),
     );
-    let ne = ctx.q(20000, 200000);
+    let ne = ctx.q(150000, 1500000);
     ctx.explore::<ECase>(
         "extra",
         ne,
